@@ -265,9 +265,29 @@ def check_c16(rng, n):
                 machines, sysbw = cfg.parse_cluster_config()
                 total_arrays, pipelines, observations, max_ingest = cfg.parse_instrument_config("telescope")
                 hot, cold = cfg.parse_buffer_config()
+                again = None
+                if i % 2 == 0:
+                    # the same Config object read a second time (a second Cluster / Telescope / Buffer built
+                    # from it) is scaled by the same factor, not by the factor once more
+                    m2, sb2 = cfg.parse_cluster_config()
+                    ta2, _, obs2, mi2 = cfg.parse_instrument_config("telescope")
+                    h2, c2 = cfg.parse_buffer_config()
+                    again = (Fraction(obs2[0].est), Fraction(obs2[0].duration), Fraction(obs2[0].ingest_data_rate),
+                             Fraction(h2[0].max_ingest_data_rate), Fraction(c2[0].max_data_rate), Fraction(m2[0].cpu),
+                             Fraction(m2[0].bandwidth), Fraction(sb2), h2[0].total_capacity, c2[0].total_capacity, ta2, mi2)
             finally:
                 simgen.rm_workdir(d)
             o = observations[0]
+            if again is not None:
+                first = (Fraction(o.est), Fraction(o.duration), Fraction(o.ingest_data_rate),
+                         Fraction(hot[0].max_ingest_data_rate), Fraction(cold[0].max_data_rate), Fraction(machines[0].cpu),
+                         Fraction(machines[0].bandwidth), Fraction(sysbw), hot[0].total_capacity, cold[0].total_capacity,
+                         total_arrays, max_ingest)
+                if again != first:
+                    res["violations"].append({"prop": "C16", "kind": "unit-scaling", "sig": "unit-scaling:second-parse",
+                                              "detail": "the same Config read twice: %s then %s" % (
+                                                  [str(x) for x in first], [str(x) for x in again]),
+                                              "input": {"unit": unit, "start": start, "duration": duration, "rate": rate}})
             res["evaluations"] += 1
             bump(res["dist"], str(unit))
             if m != 1:
@@ -468,9 +488,89 @@ def check_c18(rng, n):
                 c18_overlap(rng, res)
             if i % 3 == 1:
                 c18_overlap_h2c(rng, res)
+            if i % 3 == 2:
+                c18_into_partly_filled(rng, res)
     finally:
         drv.close()
     return res
+
+
+def c18_into_partly_filled(rng, res):
+    """One move after the other into a tier that already holds data: the move is accepted iff the observation
+    fits into what is FREE there (not into the tier's total size); a refused move changes nothing."""
+    direction = rng.choice(["h2c", "h2c", "c2h"])
+    hot_rate, cold_rate = rng.choice([2, 4, 5, 10]), rng.choice([1, 2, 4, 5, 10])
+    sa = rng.choice([5, 12, 30])
+    dst_cap = sa + rng.choice([3, 10, 25])
+    free = dst_cap - sa
+    sb = max(1, rng.choice([free - 1, free, free + 1, dst_cap, dst_cap - 1, 1]))
+    src_cap = sb + rng.choice([0, 10, 100])
+    if direction == "h2c":
+        hot_cap, cold_cap = src_cap, dst_cap
+    else:
+        hot_cap, cold_cap = dst_cap, src_cap
+    spec = {"machines": [{"id": "m0", "flops": 10, "bw": 2}], "system_bandwidth": 1, "total_arrays": 4,
+            "max_ingest": 1, "observations": [{"name": nm, "start": 0, "duration": 1, "demand": 1, "rate": 1,
+                                               "ingest_demand": 1, "workflow": {"nodes": [{"id": 0, "comp": 10}], "edges": []}}
+                                              for nm in "ab"],
+            "hot": {"capacity": hot_cap, "rate": hot_rate}, "cold": {"capacity": cold_cap, "rate": cold_rate},
+            "timestep": "seconds", "planning": "batch", "scheduling": {"kind": "queue"}, "delay": None}
+    inp = {"scenario": "move-into-partly-filled-tier", "direction": direction, "resident": sa, "moved": sb,
+           "hot_cap": hot_cap, "cold_cap": cold_cap, "hot_rate": hot_rate, "cold_rate": cold_rate}
+    h = runsim.SimHandle(spec)
+    try:
+        buf, env = h.sim.buffer, h.env
+        hot, cold = buf.hot[0], buf.cold[0]
+        A, B = h.sim.instrument.observations
+        A.total_data_size, B.total_data_size = sa, sb
+        src, dst = (hot, cold) if direction == "h2c" else (cold, hot)
+        dst.observations["stored"].append(A)
+        dst.current_capacity -= sa
+        src.observations["stored"].append(B)
+        src.current_capacity -= sb
+        pre = (hot.current_capacity, cold.current_capacity)
+        p = env.process((buf.move_hot_to_cold if direction == "h2c" else buf.move_cold_to_hot)(0))
+        low = dst.current_capacity
+        raised = None
+        for _ in range(20 * sb + 20):
+            if p.triggered:
+                break
+            try:
+                env.run(until=env.now + 1)
+            except Exception as e:   # noqa
+                raised = errname(e)
+                break
+            low = min(low, dst.current_capacity)
+        res["evaluations"] += 1
+        fits = sb <= free
+        bump(res["dist"], "partly-filled-%s-%s" % (direction, "fits" if fits else "too-big"))
+        bad = []
+        if raised:
+            bad.append("raised %s" % raised)
+        elif not p.triggered:
+            bad.append("the move never completed")
+        else:
+            accepted = p.value is True
+            if accepted:
+                res["nontrivial"] += 1
+            if accepted != fits:
+                bad.append("move of %s into %s free of %s total was %s" % (
+                    sb, free, dst_cap, "accepted" if accepted else "refused"))
+            if not accepted and ((hot.current_capacity, cold.current_capacity) != pre or B not in src.observations["stored"]
+                                 or B in dst.observations["stored"]):
+                bad.append("a refused move changed the tiers")
+            if accepted and fits and (B not in dst.observations["stored"] or B in src.observations["stored"]
+                                      or dst.current_capacity != free - sb or src.current_capacity != src_cap):
+                bad.append("end state after the move: dst free %s (want %s), src free %s (want %s)" % (
+                    fr(dst.current_capacity), free - sb, fr(src.current_capacity), src_cap))
+        if low < 0:
+            bad.append("free space of the destination fell to %s" % fr(low))
+        for b in bad:
+            for pr in (("C18", "C07") if "fell to" in b else ("C18",)):
+                res["violations"].append({"prop": pr, "kind": "tier-move-into-partly-filled-tier",
+                                          "sig": "tier-move-partly-filled:" + b.split()[0], "detail": b, "input": inp})
+    finally:
+        h.close()
 
 
 def c18_overlap(rng, res):
@@ -849,11 +949,12 @@ def check_c10(rng, n, hashseeds=("0", "1", "2")):
                                             stdout=subprocess.PIPE, stderr=subprocess.DEVNULL, text=True, bufsize=1))
         for i in range(n):
             # stratified by index so that every run has its share of each shape, whatever the seed
-            shape = ("batch", "tie", "delay", "any", "greedy")[i % 5]
-            spec = simgen.gen_spec(rng, pairing="batch" if shape == "batch" else
+            shape = ("batch", "tie", "delay", "any", "greedy", "batchseq")[i % 6]
+            spec = simgen.gen_spec(rng, pairing="batch" if shape in ("batch", "batchseq") else
+                                   rng.choice(["batch", "queue"]) if shape == "delay" else
                                    rng.choice(["batch", "queue", "dynamic", "greedy"]))
             # many simultaneously ready tasks on heterogeneous machines make order matter
-            if shape in ("batch", "delay") or rng.random() < 0.7:
+            if shape in ("batch", "delay", "batchseq") or rng.random() < 0.7:
                 nm = rng.randint(3, 6)
                 spec["machines"] = [{"id": "m%d" % k, "flops": f, "bw": rng.choice([1, 2, 4])}
                                     for k, f in enumerate(rng.sample([2, 4, 5, 8, 10, 20, 40], nm))]
@@ -898,6 +999,30 @@ def check_c10(rng, n, hashseeds=("0", "1", "2")):
                     edges = [[0, j, vols[j - 1]] for j in range(1, k + 1)] + [[j, k + 1, rng.choice([0, 2])] for j in range(1, k + 1)]
                     o["workflow"] = {"nodes": nodes, "edges": edges}
                     o["ingest_demand"] = min(o["ingest_demand"], spec["max_ingest"])
+            if shape == "batchseq":
+                # whole-cluster reservations one after the other on machines of very different speeds: the order
+                # in which a released reservation's machines come back decides who runs what next
+                nm = rng.randint(4, 6)
+                spec["machines"] = [{"id": "m%d" % k, "flops": f, "bw": rng.choice([1, 2, 4])}
+                                    for k, f in enumerate(rng.sample([1, 2, 4, 5, 8, 10, 20, 40], nm))]
+                spec["max_ingest"] = min(spec["max_ingest"], 2)
+                spec["scheduling"] = {"kind": "batch", "partitions": 1, "min": 1, "split": None}
+                spec["delay"] = None
+                base = dict(spec["observations"][0])
+                obs, t = [], base["start"]
+                for j in range(rng.randint(2, 3)):
+                    o = dict(base, name="abc"[j], start=t, duration=rng.randint(1, 3))
+                    o["ingest_demand"] = min(o["ingest_demand"], spec["max_ingest"])
+                    o["workflow"] = simgen.gen_workflow(rng, rng.randint(4, 7), [40],
+                                                        shape=rng.choice(["fan", "diamond", "random"]))
+                    for nd in o["workflow"]["nodes"]:
+                        nd["comp"] = 40 * rng.randint(1, 5)
+                    obs.append(o)
+                    t += o["duration"] + rng.randint(0, 3)
+                spec["observations"] = obs
+                tot = sum(o["rate"] * o["duration"] for o in obs)
+                spec["hot"]["capacity"] = int(tot / 0.6) + 5
+                spec["cold"]["capacity"] = spec["hot"]["capacity"] + 5
             if shape == "tie":
                 # planned-start ties: several roots with zero planned duration on few machines, so that a
                 # plan-driven algorithm meets ready tasks of equal est planned on the same machine
